@@ -19,7 +19,11 @@ EXPLANATION = (
     'tensor and complete; subgraph.outputs is rewired only by the instruction '
     'that covers the graph output and signature outputs are retargeted per '
     'signature from that signature\'s own subgraph; the source model is never '
-    'written (alias/effect analysis) and the transformed object is a deep copy.'
+    'written (alias/effect analysis) and the transformed object is a deep copy. '
+    'Two decision tables close the chain from "tensor is a graph output" to '
+    '"output is rewired": graph info records -1 for every subgraph output (R6), '
+    'and the performer hands every consumer entry, -1 included, to the '
+    'transformation under the current op-id maps (R5).'
 )
 LEVEL_TEXT = (
     'Decides the structural half of skeleton preservation for every model at '
@@ -295,3 +299,8 @@ def run(ctx):
   r3_io_coupdate(ctx)
   r4_source_untouched(ctx)
   shared.rule_performer_translation(ctx, 'C02.R5')
+  from sa.rules import c19  # pylint: disable=g-import-not-at-top
+  ctx.rule('C02.R6', 'graph info: a tensor that is a subgraph output records the pseudo consumer -1 (so that its instruction rewires the output)', floor=1)
+  gi = ctx.repo.func(f'{c19.TIG}._tensor_info_generator')
+  ctx.instance('C02.R6')
+  c19._graph_info_table(ctx, 'C02.R6', gi)
